@@ -118,12 +118,20 @@ func (p *Plenc) CodecForTypeRegistry(registry plenccodec.CodecRegistry, typ refl
 		c = plenccodec.PointerWrapper{Underlying: subc}
 
 	case reflect.Struct:
+		if tag != "" {
+			// Nothing is registered for this type with this tag (or we would
+			// have found it above), and struct codecs have no options
+			return nil, fmt.Errorf("no codec available for %s with tag %q", typ, tag)
+		}
 		c, err = plenccodec.BuildStructCodec(p, registry, typ, tag)
 		if err != nil {
 			return nil, err
 		}
 
 	case reflect.Slice:
+		if tag != "" && tag != "proto" {
+			return nil, fmt.Errorf("no codec available for %s with tag %q", typ, tag)
+		}
 		subt := typ.Elem()
 		// We assume for now that any tag here will be selecting the array
 		// treatment, not the registry for the underlying type.
@@ -158,6 +166,9 @@ func (p *Plenc) CodecForTypeRegistry(registry plenccodec.CodecRegistry, typ refl
 		}
 
 	case reflect.Map:
+		if tag != "" && tag != "proto" {
+			return nil, fmt.Errorf("no codec available for %s with tag %q", typ, tag)
+		}
 		c, err = plenccodec.BuildMapCodec(p, registry, typ, tag)
 		if err != nil {
 			return nil, err
